@@ -194,6 +194,46 @@ func runC11(cfg hx.Config, ch *simrt.Chooser, cs *charset, text []rune, paste bo
 		in = append(in, cp.pasteStart...)
 	}
 	tb := encodeText(cs, text)
+	if readErr && cycles == 0 && !paste && focus == 0 && len(text) >= 2 {
+		// (re-using the flag for one more history) the first half of the
+		// text is followed by the first byte(s) of a multi-byte character,
+		// then the screen is suspended and resumed before any timeout: the
+		// pending bytes are gone, the second half arrives clean
+		h := len(text) / 2
+		first, second := encodeText(cs, text[:h]), encodeText(cs, text[h:])
+		var part []byte
+		for _, m := range cs.Members {
+			if e := encodeText(cs, []rune{m}); len(e) >= 2 {
+				part = e[:len(e)-1]
+				break
+			}
+		}
+		if part != nil {
+			w.feedHold(append(append([]byte(nil), first...), part...))
+			w.runTo(w.S.Spawn("suspend-resume", func() {
+				_ = w.Scr.Suspend()
+				_ = w.Scr.Resume()
+			}))
+			w.Tty.Faults.Inc("suspend_resume")
+			w.feedHold(second)
+			w.settle()
+			got := w.take()
+			var want []string
+			for _, r := range text {
+				want = append(want, runeDesc(r, 0))
+			}
+			var f *hx.Failure
+			if strings.Join(got, " ") != strings.Join(want, " ") {
+				f = &hx.Failure{Tag: "C11/text", Msg: fmt.Sprintf("%s charset %s: %q, then %x (the start of a character), then Suspend and Resume, then %q: delivered %s, expected %s", cfg.Term, cs.Name, string(text[:h]), part, string(text[h:]), showEvents(got), showEvents(want))}
+			}
+			hx.St.Record(w.S, w.Tty.Faults.Map(), nil)
+			pn, cerr := w.finish()
+			for _, p := range pn {
+				f = &hx.Failure{Tag: "C11/text", Msg: "panic: " + p}
+			}
+			return f, cerr
+		}
+	}
 	in = append(in, tb...)
 	for _, r := range text {
 		want = append(want, runeDesc(r, 0))
@@ -232,6 +272,7 @@ func runC11(cfg hx.Config, ch *simrt.Chooser, cs *charset, text []rune, paste bo
 		}
 	}
 	if delivery < 0 {
+		w.burstResize = len(in)%2 == 1
 		w.feedBurst(chunks, -delivery-1)
 	}
 	held := append([]string(nil), w.evs...)
